@@ -93,6 +93,23 @@ func init() {
 							}
 						}
 						return res
+					},
+					after: func(fx *fixture, _ result) {
+						// Observation only (not part of this property): does a read with a
+						// malformed size make the server drop the stored blob?
+						if fx.p.kind != "binary" || !strings.HasPrefix(dm.name, "size-") {
+							return
+						}
+						ctx, cancel := context.WithTimeout(context.Background(), 10*time.Second)
+						defer cancel()
+						if miss, err := fx.isMissing(ctx, b); err == nil {
+							if miss {
+								fx.r.Count("observation.stored-blob-gone-after-read-with." + dm.name)
+								_ = fx.putBlob(ctx, b)
+							} else {
+								fx.r.Count("observation.stored-blob-still-there-after-read-with." + dm.name)
+							}
+						}
 					}}}
 			}},
 			variant{fam: "digest.BatchUpdateBlobs", name: dm.name, applies: always, build: func(fx *fixture, rng *rand.Rand) []*op {
@@ -255,12 +272,26 @@ func init() {
 			a, b := fx.pool.large[0], fx.pool.large[1]
 			return &pb.SpliceBlobRequest{BlobDigest: &pb.Digest{Hash: lib.RandHash(rng), SizeBytes: a.size + b.size}, ChunkDigests: []*pb.Digest{a.digest(), b.digest()}}
 		}},
+		{"total-exceeds-small-cache", false, func(fx *fixture, rng *rand.Rand) *pb.SpliceBlobRequest {
+			// refused (or stored) before/while the chunks are being streamed into the new blob
+			q := &pb.SpliceBlobRequest{}
+			total := int64(0)
+			for i := 0; i < 7; i++ {
+				b := fx.pool.large[i%2]
+				q.ChunkDigests = append(q.ChunkDigests, b.digest())
+				total += b.size
+			}
+			if rng.IntN(2) == 0 {
+				q.BlobDigest = &pb.Digest{Hash: lib.RandHash(rng), SizeBytes: total}
+			}
+			return q
+		}},
 		{"unknown-digest-function", true, func(fx *fixture, rng *rand.Rand) *pb.SpliceBlobRequest {
 			return &pb.SpliceBlobRequest{ChunkDigests: []*pb.Digest{fx.pool.small[3].digest()}, DigestFunction: pb.DigestFunction_Value(lib.Pick(rng, []int32{2, 9, 77, -1, math.MaxInt32}))}
 		}},
 	} {
 		c := c
-		register(variant{fam: "splice", name: c.name, applies: always, build: func(fx *fixture, rng *rand.Rand) []*op {
+		register(variant{fam: "splice", name: c.name, core: c.name == "total-exceeds-small-cache", applies: always, build: func(fx *fixture, rng *rand.Rand) []*op {
 			q := c.f(fx, rng)
 			cancelEarly := strings.HasPrefix(c.name, "large") && rng.IntN(2) == 0
 			return []*op{ensureOp(fx.pool.small[3], fx.pool.small[4], fx.pool.medium[0], fx.pool.large[0], fx.pool.large[1]),
